@@ -16,9 +16,17 @@ requests:
   c17.colrplan <hex COLR table> L <layer indices…> K <collected variation indices…>
        response: L <old new…> V <old new…> I <n> {<len> <key>…}… D <new ds idx, new var idx…>
        (remap_indices + the variation part of Plan::colr_closure)
+  c17.colr.tree <hex COLR table> G <gid> | Y <layer index>
+       response: the paint tree of the COLRv1 base glyph / layer as the reader model unfolds it
+       (`(bytes[blob]kids…)`, offsets masked) | none
+  c17.colr.expect <hex COLR table> G <gid> | Y <layer index>, then the plan as in c17.colr (G M P L V I D)
+       response: the tree the theorems promise for that glyph / layer in the subset (`expectTree`) | none
+  c17.colr.v0 <hex COLR table> <gid>
+       response: the COLRv0 layers of the glyph `gid pal gid pal …` | - (no layers) | none
 -/
 import FontVerif.Model.SubsetCpal
 import FontVerif.Model.SubsetColr
+import FontVerif.Model.SubsetColrTree
 namespace FontVerif.Drv.C17Colr
 open FontVerif FontVerif.ColrSer
 open FontVerif.SubsetHvar (Err R)
@@ -117,6 +125,27 @@ def handle (cmd : String) (args : List String) : Option String :=
       | _ => (none, SubsetColr.DsimIn.null)
     let (v, im, d) := SubsetColr.varPlan storeCount dsim collected
     some s!"L {showPairs (SubsetColr.remapIndices layers)} V {showPairs v} I {showInner im} D {showPairs d}"
+  | "c17.colr.tree", [hex, kind, n] => do
+    let b := (← parseHex? hex).toArray
+    let n ← parseNat? n
+    let pos ← match kind with
+      | "G" => some (SubsetColr.v1BasePaint b n)
+      | "Y" => some (SubsetColr.v1LayerPaint b n)
+      | _ => none
+    some (match pos with
+      | none => "none"
+      | some q => SubsetColr.renderOpt (SubsetColr.srcTree b (SubsetColr.paintFuel b) q))
+  | "c17.colr.expect", hex :: kind :: n :: "G" :: rest => do
+    let b := (← parseHex? hex).toArray
+    let n ← parseNat? n
+    let p ← parsePlan rest
+    let pos ← match kind with
+      | "G" => some (SubsetColr.v1BasePaint b n)
+      | "Y" => some (SubsetColr.v1LayerPaint b n)
+      | _ => none
+    some (match pos with
+      | none => "none"
+      | some q => SubsetColr.renderOpt (SubsetColr.expectTree p b (SubsetColr.paintFuel b) q))
   | _, _ => none
 
 end FontVerif.Drv.C17Colr
